@@ -91,59 +91,135 @@ def leak_checks(run: Run, ts, pid: str = "C02") -> None:
 
 
 def precedence(run: Run, model: PyModel, ts) -> None:
-    """R4: properties right-biased file<h1<..<note; create_date innermost non-empty."""
+    """R4: innermost scope wins.  For each of the 64 subsets of {title line, H1..H4 header, item} a page skeleton is driven through the
+    listener's own methods (enterH1_header .. exitH4_header, enterItem, enterBase_note, enterDate / enterId with provenance labels,
+    `_add_prop`), then exitBase_note constructs the note and the provenance of its create_date and of the property `k` (set in every
+    chosen scope) is read off the Note(...) call.  Nothing here depends on how the listener state names or groups its fields."""
+    from ..filetypestate import NOTE, run_handler
+    from ..listener import labels_in
+
     I = ts.interp
-    ci = model.cls(STATE_CLS)
-    date_fields = ["file_date", "h1_date", "h2_date", "h3_date", "h4_date", "note_date"]
-    prop_fields = ["file_props", "h1_props", "h2_props", "h3_props", "h4_props", "note_props"]
-    base = state_fields(ts.tree0)
-    for f in date_fields + prop_fields:
-        if f not in base:
-            run.undecided("C02.R4", "_ZorgFileCompilerState", f"field {f} vanished")
-            return
-    n_ok = 0
-    bad = None
-    for bits in itertools.product([False, True], repeat=6):
+
+    def step(tree, method, rule, label, need_label=None):
+        if f"{COMPILER}.{method}" not in model.funcs:
+            return tree
+        outs = []
+        for v, s, root in run_handler(ts, model, method, rule, label, tree):
+            if isinstance(v, Raised):
+                continue
+            t2 = snap(root, s)
+            if need_label is None or need_label in labels_in(t2):
+                outs.append(t2)
+        if not outs:
+            return None
+        return outs[0] if len(set(outs)) == 1 else sorted(set(outs), key=repr)[0]
+
+    def add_prop(tree, key, value):
         st = State()
-        sref = rebuild(dict(ts.tree0[2])["_s"], st)
-        h = st.obj(sref)
-        for f, b, sc in zip(date_fields, bits, SCOPES):
-            h.fields[f] = Opaque("date", sc) if b else None
-        for f, b, sc in zip(prop_fields, bits, SCOPES):
-            h.fields[f] = st.alloc(HObj("dict", fields={"k": sc, f"only_{sc}": sc} if b else {}))
-        I.ctx_stack.append((ci.module, ci))
+        root = rebuild(tree, st)
+        fi = model.func(f"{COMPILER}._add_prop")
+        I.ctx_stack.append((fi.module, fi.cls))
         try:
-            rd = I.B.getattr_(I, sref, "create_date", st)
-            rp = I.B.getattr_(I, sref, "properties", st)
+            res = I.call_func(fi.qualname, [root, key, value], {}, st)
         finally:
             I.ctx_stack.pop()
+        outs = {snap(root, s) for v, s in res if not isinstance(v, Raised)}
+        return next(iter(outs)) if len(outs) == 1 else None
+
+    n_ok = 0
+    bad = None
+    n = 0
+    for bits in itertools.product([False, True], repeat=6):
         present = [sc for sc, b in zip(SCOPES, bits) if b]
-        want_date = present[-1] if present else "TODAY"
-        got_dates = {v.tag if isinstance(v, Opaque) else repr(v) for v, _ in rd}
-        got_props = []
-        for v, s in rp:
-            d = s.obj(v).fields if hasattr(v, "addr") else None
-            got_props.append(d)
+        t = ts.tree0
+        ok_chain = True
+
+        def mark(t, sc, date_rule="date"):
+            t = step(t, "enterDate", date_rule, sc.upper(), need_label=sc.upper())
+            if t is None:
+                return None
+            t = add_prop(t, "k", sc)
+            return add_prop(t, f"only_{sc}", sc) if t is not None else None
+
+        t = step(t, "enterHead", "head", "HEAD")
+        if t is not None and bits[0]:
+            t = mark(t, "file")
+        for m, r, lab in (("exitComment", "comment", "HEAD"), ("exitHead", "head", "HEAD")):
+            t = step(t, m, r, lab) if t is not None else None
+        for lvl in (1, 2, 3, 4):
+            if t is None:
+                break
+            t = step(t, f"enterH{lvl}_header", f"h{lvl}_header", f"H{lvl}")
+            if t is not None and bits[lvl]:
+                t = mark(t, f"h{lvl}")
+            t = step(t, f"exitH{lvl}_header", f"h{lvl}_header", f"H{lvl}") if t is not None else None
+        for m, r, lab in (("enterBlock", "block", "BLOCK"), ("enterItem", "item", "ITEM"), ("enterBase_note", "base_note", "ITEM")):
+            t = step(t, m, r, lab) if t is not None else None
+        if t is not None and bits[5]:
+            t = step(t, "enterId", "id", "NOTE")
+            t = mark(t, "note") if t is not None else None
+        if t is None:
+            run.undecided("C02.R4", "ZorgFileCompiler", f"cannot drive the listener through the skeleton with values at {present}")
+            return
+        before = len(ts.notes)
+        for v, s, root in run_handler(ts, model, "exitBase_note", "base_note", "ITEM", t):
+            pass
+        evs = ts.notes[before:]
+        del ts.notes[before:]
+        if not evs:
+            run.undecided("C02.R4", "ZorgFileCompiler", f"no note is constructed for the skeleton with values at {present}")
+            return
+        n += 1
+        want_date = present[-1].upper() if present else "TODAY"
+        got_dates = set()
+        got_k = set()
+        only_ok = True
+        for ev in evs:
+            cd = ev.kwargs.get("create_date")
+            got_dates |= labels_in(cd) if isinstance(cd, tuple) else {repr(cd)}
+            props = ev.kwargs.get("properties")
+            d = dict(props[1]) if isinstance(props, tuple) and props and props[0] == "dict" else {}
+            got_k.add(d.get("k"))
+            only_ok = only_ok and all(d.get(f"only_{sc}") == sc for sc in present)
         ok_d = got_dates == {want_date}
-        ok_p = all(d is not None and (d.get("k") == present[-1] if present else "k" not in d) and all(d.get(f"only_{sc}") == sc for sc in present) for d in got_props) and bool(got_props)
+        ok_p = got_k == ({present[-1]} if present else {None}) and only_ok
         if ok_d and ok_p:
             n_ok += 1
         elif bad is None:
-            bad = (present, sorted(got_dates), want_date, got_props)
-    run.check("C02.R4", "innermost scope wins for dates and same-key properties on all 64 emptiness patterns", n_ok == 64, "_ZorgFileCompilerState",
+            bad = (present, sorted(got_dates), want_date, sorted(map(str, got_k)))
+    run.check("C02.R4", "innermost scope wins for dates and same-key properties on all 64 presence patterns", n_ok == 64 and n == 64, "ZorgFileCompiler",
               f"pattern {bad[0] if bad else ''}",
-              f"with values present at {bad[0] if bad else ''}: create_date comes from {bad[1] if bad else ''} (expected {bad[2] if bad else ''}), properties {bad[3] if bad else ''}"
-              " -- the innermost enclosing scope must win", file=FILE, detail=dict(patterns_ok=n_ok))
+              f"with a date and a property `k` written at {bad[0] if bad else ''}: the note's create_date comes from {bad[1] if bad else ''} (expected {bad[2] if bad else ''}), k = {bad[3] if bad else ''}"
+              " -- the innermost enclosing scope must win and every scope's own keys must arrive", file=FILE, detail=dict(patterns_ok=n_ok))
     run.sample(dict(rule="C02.R4", patterns=64, ok=n_ok))
 
 
 def digit_tags(run: Run, model: PyModel, ts) -> None:
     """R5: a tag value that consists of digits only is never stored."""
-    base = ts.tree0
-    flags = ["in_first_comment", "in_h1_header", "in_h2_header", "in_h3_header", "in_h4_header", "in_note"]
+    from ..filetypestate import run_handler
+
+    def step(tree, method, rule, label):
+        if tree is None or f"{COMPILER}.{method}" not in model.funcs:
+            return tree
+        outs = {snap(root, s) for v, s, root in run_handler(ts, model, method, rule, label, tree) if not isinstance(v, Raised)}
+        return sorted(outs, key=repr)[0] if outs else None
+
+    # the listener states in which a tag can be met, reached through the listener's own methods
+    scopes = {}
+    t = step(ts.tree0, "enterHead", "head", "HEAD")
+    scopes["title line"] = t
+    t = step(step(t, "exitComment", "comment", "HEAD"), "exitHead", "head", "HEAD")
+    for lvl in (1, 2, 3, 4):
+        t = step(t, f"enterH{lvl}_header", f"h{lvl}_header", f"H{lvl}")
+        scopes[f"H{lvl} header"] = t
+        t = step(t, f"exitH{lvl}_header", f"h{lvl}_header", f"H{lvl}")
+    t = step(step(step(t, "enterBlock", "block", "BLOCK"), "enterItem", "item", "ITEM"), "enterBase_note", "base_note", "ITEM")
+    scopes["item"] = t
     n = 0
-    for on in flags:
-        tree = set_state_fields(base, **{f: (f == on) for f in flags})
+    for on, tree in scopes.items():
+        if tree is None:
+            run.undecided("C02.R5", "ZorgFileCompiler", f"cannot reach the {on} state through the listener's methods")
+            continue
         st = State()
         root = rebuild(tree, st)
         from ..absval import new_text
